@@ -390,7 +390,9 @@ class Cfg:
                 if s is None or s < 0:
                     continue
                 val = (i == 0)
-                out.append((s, 'T' if val else 'F', implied(self.fn, cond, val)))
+                facts = implied(self.fn, cond, val)
+                implied(self.fn, b['cond'], val, facts)      # the whole condition, where it determines its operands
+                out.append((s, 'T' if val else 'F', facts))
         elif tk == 'CXXForRangeStmt' and len(succs) == 2:
             for i, s in enumerate(succs):
                 if s is not None and s >= 0:
@@ -402,22 +404,21 @@ class Cfg:
         return out
 
     def effective_cond(self, b):
-        """The expression whose value decides this block's branch.  For the last block of
-        `a && b` clang reports the whole `a && b` as condition; the value decided here is the
-        right-most operand."""
+        """The expression whose value decides this block's branch.  clang reports the whole
+        `a && b` (or `a || b`) as the condition of the block that evaluates its last operand; that
+        block is only reached when the earlier operands did not short-circuit, so the value decided
+        here is the right-most operand."""
         fn = self.fn
-        cond = b['cond']
-        elems = set(e for e in b['e'] if isinstance(e, int))
-        c = fn.strip(cond, casts=False)
+        c = fn.strip(b['cond'], casts=False)
         while True:
             nd = fn.nodes[c]
-            if nd['k'] == 'BinaryOperator' and nd.get('op') in ('&&', '||') and c not in elems:
+            if nd['k'] == 'BinaryOperator' and nd.get('op') in ('&&', '||'):
                 c = fn.strip(fn.kids(c)[1], casts=False)
                 continue
             if nd['k'] == 'ImplicitCastExpr' and fn.kids(c):
                 inner = fn.strip(fn.kids(c)[0], casts=False)
                 ind = fn.nodes[inner]
-                if ind['k'] == 'BinaryOperator' and ind.get('op') in ('&&', '||') and inner not in elems:
+                if ind['k'] == 'BinaryOperator' and ind.get('op') in ('&&', '||'):
                     c = inner
                     continue
             return c
